@@ -278,7 +278,7 @@ def run(spec):
     return {'nontrivial': len(used_specs) >= 2 and diag_before_compare, 'labels': labels}
 
 
-FAMILIES = [Family('histories', case, run, quick=320, thorough=6000)]
+FAMILIES = [Family('histories', case, run, quick=480, thorough=6000)]
 
 MANIFEST_INFO = {
     'level_text': 'Model-based exploration of process histories: generated interleavings of building, solving, re-solving and '
